@@ -1,54 +1,56 @@
 /-
-  Props/C16Doc6.lean — property C16, goal G3, MAIN remaining case (PARTIAL — groundwork, table facts
-  and kernel-checked evidence; the document-level theorem is NOT proved).
+  Props/C16Doc6.lean — property C16, goal G3, inserting a comment line: ALL CASES (PROVED).
 
-  CONJECTURE `C16_comment_line_document_all` (not proved): the conclusion of
-  `C16_comment_line_document` (Props/C16Doc4.lean) — outcome of `src'` =
-  `insertComment k ⟨⟨k+1, 1⟩, rstripCRLF c⟩` of the renamed outcome of `src` — holds under
-  `Spec.commentLineOk3B` (Spec/LayoutChecks4.lean): `c` is a `#` line, not a language header where it is
-  inserted, and the state `s` of the original run after `k` lines
-    (a) has a comment test that builds and stays                         — PROVED (C16Doc4), or
-    (b) opens the description with a comment (`Spec.commentOpensDescription`) and
-        (b1) line `k+1` is description text or a comment                 — PROVED (C16Doc5), or
-        (b2) line `k+1` is a step / keyword / tag / table-row line, or `k` is the end of the text
-                                                                          — NOT PROVED (this file).
-  (`commentLineOk3B` says for (b): line `k+1` does not exist or is not blank.)
+  `C16_comment_line_document_all`: the conclusion of `C16_comment_line_document` (Props/C16Doc4.lean) —
+  outcome of `src'` = `insertComment k ⟨⟨k+1, 1⟩, rstripCRLF c⟩` of the renamed outcome of `src` — holds
+  for both error modes, accepted or rejected documents, any incoming matcher state and id counter,
+  whenever `c` is a `#` line, not a language header where it is inserted, and the state `s` of the
+  original run after `k` lines
+    (a) has a comment test that builds and stays                         (proved in C16Doc4), or
+    (b) opens the description with a comment (`Spec.commentOpensDescription`: directly after a
+        `Feature:` / `Rule:` / `Background:` / `Scenario:` / `Examples:` line) and line `k+1` does not
+        exist or is not blank (`Spec.nextLineNotBlank`) — i.e. line `k+1` is
+        (b1) description text or a comment                               (proved in C16Doc5), or
+        (b2) a step / keyword / tag / table-row line, or `k` is the end of the text   (NEW, this file).
+  `C16_comment_line_document_all_context` is the statement about the final contexts,
+  `C16_comment_line_text3` the text form, taking exactly the Boolean `Spec.commentLineOk3B`.
+  The hypothesis "not blank" is needed: last example (a blank line behind the comment becomes
+  description text).  Nothing of the conjecture remains unproved.
 
-  WHAT IS PROVED HERE for (b2).
-  In case (b2) the second run opens a `Description` node for the comment and closes it EMPTY with the
-  next line; the node that was open in state `s` thereby receives an item
-  `(.rule .Description, .descr "")` which the first run does not have, and — for header nodes
-  (`FeatureHeader`, `RuleHeader`, `Scenario`, `Examples`), which `transform_node` hands on raw — this
-  item stays in the tree until the parent is transformed.
-   1. Builder level, complete (Lemmas/LayoutDoc6Builder.lean, namespace `Layout6`): the relations
-      `ItemsD`/`ValD` ("equal up to such extra items, provided the node has no other `Description`
-      item") and `BD` on builder states; `transformNode_D` (`transform_node` yields the same ids and
-      errors and `ValD`-related values — in particular `getDescription` is `""` in both);
-      `BD.startRule`, `BD.build`, `BD.endRule`, `BD.result` (the final documents are EQUAL).
-      `C16_emptyDescription_invisible` below is the instance for one node.
-   2. The side condition of `BD.endRule` — a node never receives a SECOND `Description` item — and the
-      precondition of opening the relation — in state `s` the open node has no `Description` item —
-      are instances of ONE unary invariant of every run, stated as an abstract interpretation
-      (`Spec.descFlagsOk`, flags per open node) and CHECKED on the generated table
-      (`C16_fact_descFlags`).  Its soundness (loop invariant of `parseLinesPure` from `descFlagsOk`,
-      in the style of Lemmas/LayoutDoc3Depth.lean) is NOT proved.
-  WHAT IS MISSING.  (i) soundness of `descFlagsOk` (≈ `depth_prefix` with `List Bool` for `Nat`);
-  (ii) the step for line `k+1`: the first run in row `s`, the second in row `descTarget s` read the same
-  structural line with productions `ps` resp. `.end_ .Description :: ps` (table fact in the style of
-  `rowsMatch`, which already gives "same tests, same guards" — to be extended by this production
-  clause and "same target" for the non-Comment/Other tests), establishing `BD` after the step;
-  (iii) a same-program simulation of the rest of the run under `BD` in the builder and `CtxR` in the
-  rest of the context (matchers and look-ahead do not depend on the builder: `Layout5.BFrame`), and the
-  body tail with `BD.result`; (iv) end of text: the same with the `EOF` test.
-  The hypothesis cannot be replaced by a Boolean on the ORIGINAL run: the invariant is needed for the
-  second run's node below the new `Description`, which is related to, not equal to, the first run's.
+  HOW (b2) IS PROVED.  The second run opens a `Description` node for the comment and closes it EMPTY
+  with the next line; the node that was open in state `s` thereby receives an item
+  `(.rule .Description, .descr "")` which the first run does not have.
+   1. Builder level (Lemmas/LayoutDoc6Builder.lean): the relation `BD` ("equal up to such extra items");
+      `transform_node` yields the same ids, errors and typed values; `BD.result`: EQUAL documents.
+   2. The side condition of `BD.endRule` — a node never receives a SECOND `Description` item — is an
+      instance of a unary invariant of every run, an abstract interpretation of the builder's stack of
+      open nodes by rule type and `Description` flag: `Spec.descStacksOk` (Spec/LayoutChecks6.lean),
+      CHECKED on the generated table (`C16_fact_descStacks`) and PROVED SOUND as a loop invariant of the
+      queue-free parse (Lemmas/LayoutDoc6Flags.lean; here `C16_descStacks_sound`,
+      `C16_descOpening_top_noDescription`, `C16_no_second_description`).
+      NOTE on `Spec.descFlagsOk` (Spec/LayoutChecks4.lean, `C16_fact_descFlags` below): that abstraction
+      keeps flags only and takes the rule type of the node an `end_ X` closes from the production; the
+      builder's `end_rule` ignores its argument and files the node under its own rule type, so flags
+      alone are not an inductive invariant of the MODEL.  `descStacksOk` carries the rule types along and
+      checks in addition that every `end_ X` of the table closes an `X` node.  `descFlagsOk` is kept as a
+      checked fact but is not used by the proof.
+   3. The step for line `k+1` (Lemmas/LayoutDoc6Step.lean, table fact `Spec.descRowsOk`,
+      `C16_fact_descRows`): the description state has the tests of the description-opening state, minus
+      `Empty`, with productions `end_ Description :: ps` for `ps`, same guards, same targets; the error
+      tail of the description-opening state is not reachable (`Other` and `EOF` are tested unguarded).
+   4. Three runs (Lemmas/LayoutDoc6Doc.lean): first run ~ a hypothetical middle run (the second run's
+      context with the builder state without the extra items; `CtxR`, simulation of LayoutDoc4) ~
+      second run (same program, same text, `BD` in the builder: Lemmas/LayoutDoc6Sim.lean; matchers and
+      look-aheads do not depend on the builder: Lemmas/LayoutDoc6Indep.lean).  The end of the text is the
+      same step with the `EOF` token.
 -/
 import GherkinVerif.KDecide
 import GherkinVerif.Props.C16Doc5
 import GherkinVerif.Spec.LayoutChecks4
 import GherkinVerif.Lemmas.LayoutDoc6Builder
+import GherkinVerif.Lemmas.LayoutDoc6Doc
 namespace GV
-open Lemmas Layout6
+open Lemmas Layout3 Layout4 Layout5 Layout6
 
 /-- an empty `Description` item in a node without one is invisible to `transform_node`: same ids
     consumed, same errors, and values equal up to such items in raw header nodes -/
@@ -60,13 +62,140 @@ theorem C16_emptyDescription_invisible (cs : List Comment) (rt : RuleType) (xs :
 /-- … and to the document: builder states related by `BD` give the same result -/
 theorem C16_emptyDescription_result {β1 β2 : BState} (h : BD β1 β2) : β2.result = β1.result := h.result
 
-/-- TABLE FACT: the generated table has an inductive flag assignment — no production ever puts a
+/-- TABLE FACT (flags only; not used by the proof, see the header): the generated table has an inductive flag assignment — no production ever puts a
     second `Description` item into a node, and in the eight description-opening states the open node
     has none -/
 theorem C16_fact_descFlags :
     Spec.descFlagsOk Gen.parserTable (Spec.computeDescFlags Gen.parserTable 4) = true := by kdecide
 
-/-! ### kernel-checked evidence for the conjecture -/
+
+/-- TABLE FACT (the abstraction the proof uses): an inductive assignment of abstract stacks — rule
+    type and `Description` flag of every open node — to the states of the generated table; every
+    `end_ X` closes an `X` node and never puts a second `Description` item into a node -/
+theorem C16_fact_descStacks :
+    Spec.descStacksOk Gen.parserTable (Spec.computeDescStacks Gen.parserTable 4) = true := by kdecide
+
+/-- TABLE FACT: every description-opening state of the generated table matches its description
+    state test by test (`end_ Description :: ps` for `ps`), and catches every token -/
+theorem C16_fact_descRows : Spec.descRowsOk Gen.parserTable = true := by kdecide
+
+/-- **Soundness of the abstract interpretation** (run invariant): after any number of lines of any
+    text, in either error mode, from any matcher state and id counter, the builder's open nodes have
+    the rule types the table fact assigns to the state reached, and a node flagged `false` holds no
+    `Description` item -/
+theorem C16_descStacks_sound (stop : Bool) (μ : MState) (ids : Nat) (src : Str) (k s : Nat) (c : Ctx)
+    (hr : Spec.runAfter Gen.dialects Gen.parserTable stop μ ids src k = some (s, c)) :
+    StackA c.β.stack (Spec.absAt (Spec.computeDescStacks Gen.parserTable 4) s) :=
+  descStacks_sound C16_fact_descStacks stop μ ids src k s c hr
+
+/-- … in a description-opening state the open top node holds no `Description` item -/
+theorem C16_descOpening_top_noDescription (stop : Bool) (μ : MState) (ids : Nat) (src : Str) (k s : Nat) (c : Ctx)
+    (hr : Spec.runAfter Gen.dialects Gen.parserTable stop μ ids src k = some (s, c))
+    (hs : Spec.commentOpensDescription Gen.parserTable s = true) :
+    ∃ top rest, c.β.stack = top :: rest ∧ getItems top.items (.rule .Description) = [] :=
+  descOpening_top_noDescription C16_fact_descStacks stop μ ids src k s c hr hs
+
+/-- … and no node ever receives a second `Description` item: whenever the main loop stands in a state
+    with an open `Description` node on top, the node below holds no `Description` item (and the
+    productions of every branch keep it so: `Layout6.endRule_safe`, `Layout6.stackA_runProds`) -/
+theorem C16_no_second_description (stop : Bool) (μ : MState) (ids : Nat) (src : Str) (k s : Nat) (c : Ctx)
+    (hr : Spec.runAfter Gen.dialects Gen.parserTable stop μ ids src k = some (s, c)) :
+    ∀ a b rest, c.β.stack = a :: b :: rest → a.rt = .Description → getItems b.items (.rule .Description) = [] :=
+  topOk_safe (C16_descStacks_sound stop μ ids src k s c hr) (topOkA_absAt C16_fact_descStacks s)
+
+/-- Generic form, for every dialect table and transition table passing the Boolean checks. -/
+theorem C16_comment_line_document_all_generic (D : List Dialect) (T : Table)
+    (hD : Spec.stepKeywordsOk D = true) (hQD : Spec.queueDialectFacts D = true)
+    (hQT : Spec.queueFacts T = true) (hCB : Spec.commentBlankTested T = true)
+    (hLA : Spec.lookaheadsCommentOk T = true) (ds : List (Nat × Nat)) (hds : Spec.depthsOk T ds = true)
+    (hps : Spec.prodsOk T ds = true) (fl : List (Nat × List Spec.ANode)) (hF : Spec.descStacksOk T fl = true)
+    (hR : Spec.descRowsOk T = true)
+    (stop : Bool) (μ : MState) (ids : Nat) (src src' : Str) (pre post : List Str) (c : Str)
+    (hc : lineStartsWith c [35] = true)
+    (h1 : splitLines src = pre ++ post) (h2 : splitLines src' = pre ++ c :: post)
+    (hμ : (μ.reset D).dialect ∈ D)
+    (hst : ∀ s, Spec.stateAfter D T stop μ ids src pre.length = some s →
+      (Spec.languageTested T s = true → languageRe (lineText c none) = none) ∧
+      (Spec.commentSelfLoop T s = true ∨
+        (Spec.commentOpensDescription T s = true ∧ Spec.nextLineNotBlank D T stop μ ids src pre.length = true))) :
+    (parseWith D T stop μ ids src').1 =
+      Spec.insertComment pre.length ⟨⟨pre.length + 1, some 1⟩, rstripCRLF c⟩
+        (Spec.mapOutcome (Spec.insertMap pre.length) (parseWith D T stop μ ids src).1) ∧
+    C16_MappedContext (Spec.insertMap pre.length) (parseWith D T stop μ ids src).2 (parseWith D T stop μ ids src').2 := by
+  obtain ⟨h, hc'⟩ := comment_line_parseWith3 hD hQD hQT hCB (tableOkC_of_facts hLA hds hps) hF hR hc stop μ ids
+    pre post h1 h2 hμ hst
+  exact ⟨h, hc'.errors, hc'.μ, hc'.ids, hc'.unexpected⟩
+
+/-- **Inserting a comment line adds that comment and changes only line numbers** — all cases.  If the
+    state in which the original run stands after the first `pre.length` lines does not read `c` as a
+    language header and has a comment test that builds and stays, or opens the description with a
+    comment and the next line is not blank (or the text ends there), then the outcome of the text
+    with the `#` line `c` inserted there — document, or error list — is the original outcome with the
+    line numbers `> pre.length` increased by one and, for a document, the comment added at its place. -/
+theorem C16_comment_line_document_all (stop : Bool) (μ : MState) (ids : Nat) (src src' : Str)
+    (pre post : List Str) (c : Str) (hc : lineStartsWith c [35] = true)
+    (h1 : splitLines src = pre ++ post) (h2 : splitLines src' = pre ++ c :: post)
+    (hμ : (μ.reset Gen.dialects).dialect ∈ Gen.dialects)
+    (hst : ∀ s, Spec.stateAfter Gen.dialects Gen.parserTable stop μ ids src pre.length = some s →
+      (Spec.languageTested Gen.parserTable s = true → languageRe (lineText c none) = none) ∧
+      (Spec.commentSelfLoop Gen.parserTable s = true ∨
+        (Spec.commentOpensDescription Gen.parserTable s = true ∧
+          Spec.nextLineNotBlank Gen.dialects Gen.parserTable stop μ ids src pre.length = true))) :
+    (parseWith Gen.dialects Gen.parserTable stop μ ids src').1 =
+      Spec.insertComment pre.length ⟨⟨pre.length + 1, some 1⟩, rstripCRLF c⟩
+        (Spec.mapOutcome (Spec.insertMap pre.length) (parseWith Gen.dialects Gen.parserTable stop μ ids src).1) :=
+  (C16_comment_line_document_all_generic _ _ C16_step_keywords_ok C18_fact_keywords C18_fact_queue
+    C18_fact_comment_blank C16_fact_lookaheads_comment _ C16_fact_depths C16_fact_prods _ C16_fact_descStacks
+    C16_fact_descRows stop μ ids src src' pre post c hc h1 h2 hμ hst).1
+
+/-- … and the final contexts: errors renamed, same matcher state, same id counter -/
+theorem C16_comment_line_document_all_context (stop : Bool) (μ : MState) (ids : Nat) (src src' : Str)
+    (pre post : List Str) (c : Str) (hc : lineStartsWith c [35] = true)
+    (h1 : splitLines src = pre ++ post) (h2 : splitLines src' = pre ++ c :: post)
+    (hμ : (μ.reset Gen.dialects).dialect ∈ Gen.dialects)
+    (hst : ∀ s, Spec.stateAfter Gen.dialects Gen.parserTable stop μ ids src pre.length = some s →
+      (Spec.languageTested Gen.parserTable s = true → languageRe (lineText c none) = none) ∧
+      (Spec.commentSelfLoop Gen.parserTable s = true ∨
+        (Spec.commentOpensDescription Gen.parserTable s = true ∧
+          Spec.nextLineNotBlank Gen.dialects Gen.parserTable stop μ ids src pre.length = true))) :
+    C16_MappedContext (Spec.insertMap pre.length) (parseWith Gen.dialects Gen.parserTable stop μ ids src).2
+      (parseWith Gen.dialects Gen.parserTable stop μ ids src').2 :=
+  (C16_comment_line_document_all_generic _ _ C16_step_keywords_ok C18_fact_keywords C18_fact_queue
+    C18_fact_comment_blank C16_fact_lookaheads_comment _ C16_fact_depths C16_fact_prods _ C16_fact_descStacks
+    C16_fact_descRows stop μ ids src src' pre post c hc h1 h2 hμ hst).2
+
+/-- **The text form**, taking exactly the Boolean `Spec.commentLineOk3B` a driver can evaluate: the
+    text `s1 ++ c ++ "\n" ++ s2` (`s1` empty or ending in a line feed, `c` without line feed) against
+    `s1 ++ s2`. -/
+theorem C16_comment_line_text3 (stop : Bool) (μ : MState) (ids : Nat) (s1 s2 c : Str)
+    (hs1 : s1 = [] ∨ s1.getLast? = some 10) (hlf : 10 ∉ c)
+    (hμ : (μ.reset Gen.dialects).dialect ∈ Gen.dialects)
+    (hok : Spec.commentLineOk3B Gen.dialects Gen.parserTable stop μ ids (s1 ++ s2) (splitLines s1).length
+      (c ++ [10]) = true) :
+    (parseWith Gen.dialects Gen.parserTable stop μ ids (s1 ++ (c ++ [10]) ++ s2)).1 =
+      Spec.insertComment (splitLines s1).length ⟨⟨(splitLines s1).length + 1, some 1⟩, rstripCRLF (c ++ [10])⟩
+        (Spec.mapOutcome (Spec.insertMap (splitLines s1).length)
+          (parseWith Gen.dialects Gen.parserTable stop μ ids (s1 ++ s2)).1) := by
+  unfold Spec.commentLineOk3B at hok
+  simp only [Bool.and_eq_true] at hok
+  obtain ⟨hc, hst⟩ := hok
+  refine C16_comment_line_document_all stop μ ids (s1 ++ s2) (s1 ++ (c ++ [10]) ++ s2) (splitLines s1)
+    (splitLines s2) (c ++ [10]) hc (splitLines_append_of_lf s1 s2 hs1) ?_ hμ fun s hs => ?_
+  · rw [List.append_assoc, splitLines_append_of_lf s1 _ hs1,
+      splitLines_append_of_lf (c ++ [10]) s2 (.inr (by simp)), splitLines_one_line c hlf]
+    rfl
+  · rw [hs] at hst
+    simp only [Bool.and_eq_true, Bool.or_eq_true, Bool.not_eq_true', Option.isNone_iff_eq_none] at hst
+    obtain ⟨hl, hp⟩ := hst
+    refine ⟨fun h => ?_, ?_⟩
+    · rcases hl with h' | h'
+      · rw [h'] at h; cases h
+      · exact h'
+    · rcases hp with h' | ⟨h1', h2'⟩
+      · exact .inl h'
+      · exact .inr ⟨h1', h2'⟩
+
+/-! ### kernel-checked instances (non-vacuity) and the counterexample for a blank line -/
 
 /-- equality of outcomes as a Boolean (accepted documents; rejections by their errors) -/
 def C16_sameOutcomeB : Outcome → Outcome → Bool
@@ -74,7 +203,7 @@ def C16_sameOutcomeB : Outcome → Outcome → Bool
   | .rejected e1 b1, .rejected e2 b2 => e1.map (fun e => (e.loc, e.message)) == e2.map (fun e => (e.loc, e.message)) && b1 == b2
   | _, _ => false
 
-/-- the conclusion of `C16_comment_line_document` for `#n` inserted after line `k`, as a Boolean -/
+/-- the conclusion of `C16_comment_line_document_all` for `#n` inserted after line `k`, as a Boolean -/
 def C16_commentConclusionB (stop : Bool) (μ : MState) (src src' : Str) (k : Nat) : Bool :=
   C16_sameOutcomeB (parseWith Gen.dialects Gen.parserTable stop μ 0 src').1
     (Spec.insertComment k ⟨⟨k + 1, some 1⟩, lit "#n"⟩
